@@ -73,6 +73,10 @@ func Changes(cmd CommandRunner, baseBranch string, filter PathFilter) ([]*FileCh
 		return nil, fmt.Errorf("failed to get the list of modified files from git: %w", err)
 	}
 
+	// If the base branch was merged into this branch then files might have been changed by
+	// that merge, and it's the most recent common commit that we need to compare them with.
+	mergeBase := findMergeBase(cmd, baseBranch)
+
 	var changes []*FileChange
 	var commit string
 	s := bufio.NewScanner(bytes.NewReader(out))
@@ -182,6 +186,13 @@ func Changes(cmd CommandRunner, baseBranch string, filter PathFilter) ([]*FileCh
 			change.Path.Before.Type = getTypeForPath(cmd, change.Commits[0]+"^", change.Path.Before.Name)
 			change.Path.Before.SymlinkTarget = resolveSymlinkTarget(cmd, change.Commits[0]+"^", change.Path.Before.Name, change.Path.Before.Type)
 			change.Body.Before = getContentAtCommit(cmd, change.Commits[0]+"^", change.Path.Before.EffectivePath())
+			if mergeBase != "" {
+				// Base branch was merged into this branch, what we compare with is the version
+				// of this file from the most recent common commit.
+				if body := getContentAtCommit(cmd, mergeBase, change.Path.Before.EffectivePath()); body != nil {
+					change.Body.Before = body
+				}
+			}
 		}
 
 		lastCommit := change.Commits[len(change.Commits)-1]
@@ -189,6 +200,13 @@ func Changes(cmd CommandRunner, baseBranch string, filter PathFilter) ([]*FileCh
 			change.Path.After.Type = getTypeForPath(cmd, lastCommit, change.Path.After.Name)
 			change.Path.After.SymlinkTarget = resolveSymlinkTarget(cmd, lastCommit, change.Path.After.Name, change.Path.After.Type)
 			change.Body.After = getContentAtCommit(cmd, lastCommit, change.Path.After.EffectivePath())
+			if mergeBase != "" {
+				// Merging base branch might have changed this file after the last commit we found.
+				if body := getContentAtCommit(cmd, "HEAD", change.Path.After.EffectivePath()); body != nil {
+					change.Body.After = body
+					lastCommit = "HEAD"
+				}
+			}
 		}
 
 		slog.Debug(
@@ -268,6 +286,20 @@ func getChangeByPath(changes []*FileChange, fpath string) *FileChange {
 		}
 	}
 	return nil
+}
+
+// findMergeBase returns the most recent commit shared with the base branch,
+// but only if base branch was merged into the current branch, empty string otherwise.
+func findMergeBase(cmd CommandRunner, baseBranch string) string {
+	merges, err := cmd("log", "--merges", "--first-parent", "--format=%H", baseBranch+"..HEAD")
+	if err != nil || len(bytes.TrimSpace(merges)) == 0 {
+		return ""
+	}
+	out, err := cmd("merge-base", baseBranch, "HEAD")
+	if err != nil {
+		return ""
+	}
+	return string(bytes.TrimSpace(out))
 }
 
 func getModifiedLines(cmd CommandRunner, commits []string, fpath, atCommit string) ([]int, error) {
